@@ -1,4 +1,5 @@
 import VelaVerif.Lemmas.MlwPlan
+import VelaVerif.Lemmas.Reorder
 /-!
 # C07 — the MLW writer is inverted by the reference decoder, for every plan
 
@@ -20,7 +21,7 @@ real encoder's plans satisfy `PlanOk`, and that the model writes the real encode
 run by `harness/check_C07.py` (stage "writer model").
 -/
 namespace VelaVerif.Props.C07Encode
-open VelaVerif VelaVerif.Mlw VelaVerif.MlwEnc VelaVerif.MlwSpec VelaVerif.MlwPlan
+open VelaVerif VelaVerif.Mlw VelaVerif.MlwEnc VelaVerif.MlwSpec VelaVerif.MlwPlan VelaVerif.Reorder
 
 /-! ## symbol level -/
 
@@ -124,6 +125,23 @@ theorem write_meets_spec (plan : Plan) (ws : List Int) (h : PlanOk plan ws) :
   have hd : decode (bitsToBytes bits) = .ok d := by unfold decode; rw [hb]; exact h2
   refine ⟨bitsToBytes bits, by unfold write; rw [h1], ⟨d, hd, ⟨0, by simp [h3]⟩, ?_⟩, ⟨d, hd, by rw [hb]; exact h4⟩⟩
   rw [bitsToBytes_length (bits.length / 8) bits (by omega)]; omega
+
+/-- The two halves of C07 composed (`mlw_reorder_encode` = `reorder` then `mlw_encode`): for every valid traversal
+    configuration, every source volume and every well-formed plan for its reordered sequence, the written stream
+    decodes to the volume in the hardware order, where that order visits each coordinate of the volume exactly once and
+    everything else is zero padding (`Props/C07.lean` `reorder_covers`). -/
+theorem volume_roundtrip (p : Params) (v : ValidConfig p) (src : Array Int) (expected : List Int)
+    (he : reorderValues p src = some expected) (plan : Plan) (h : PlanOk plan expected) :
+    Covers p (traverse p) ∧ expected.length = (traverse p).length ∧
+    ∃ bytes, write plan expected = .ok bytes ∧ Lossless bytes expected ∧ Framed bytes := by
+  refine ⟨⟨fun c hc => count_traverse v hc, fun c hc => traverse_sound v hc⟩, ?_, write_meets_spec plan expected h⟩
+  have hr : reorder p = some (traverse p) := by
+    unfold reorder Params.stepsPositive
+    simp [v.iuPos, v.ouPos, v.obdPos, v.dhPos, v.dwPos]
+  unfold reorderValues at he
+  rw [hr] at he
+  simp only [Option.bind_eq_bind, Option.bind_some] at he
+  exact mapM_some_length _ _ _ he
 
 /-- the plan conditions are checkable: `PlanOk` is decided by the function the harness runs on every real plan -/
 theorem plan_ok_decides (plan : Plan) (ws : List Int) : planOk plan ws = true ↔ PlanOk plan ws := Iff.rfl
